@@ -162,3 +162,8 @@ Definition stops (tail : rscript) (kd : io_kind) : Prop :=
   | Fail k :: _ => k = kd /\ kd <> Interrupted
   | Data (_ :: _) :: _ => False
   end.
+
+(* write_all on a writer that remembers what it has been handed so far (for the bodies translated from
+   the source by tools/extract_steps.py: the writer is a state threaded through the statements) *)
+Definition io_write_all (buf : list N) (ws : list N * wscript) : (list N * wscript) * res unit io_kind :=
+  let '(got, w', r) := write_all buf (snd ws) in ((fst ws ++ got, w'), r).
